@@ -193,6 +193,18 @@ theorem torn_header_falls_back {bits : Bits} {h : H} {es : List E} {l : Log H E}
     have we : (l.tearNext ⟨true, true⟩).entries = es.map (mk false) := by simp [Log.tearNext, Spec.nextSlot, he]
     exact ⟨_, by rw [open_only0 _ w0 w1, we]; simp [Spec.currentBit, seen_same], rfl, rfl⟩
 
+/-- the header write torn: the invariant still holds for the same bits, header and entries (the slot being
+    written is the older one, and an older slot may be invalid) -/
+theorem tear_inv {bits : Bits} {h : H} {es : List E} {l : Log H E} (inv : Inv bits h es l) :
+    Inv bits h es (l.tearNext bits) := by
+  obtain ⟨hn, ho0, ho1, he⟩ := inv
+  rcases bits with ⟨b0, b1⟩
+  cases b0 <;> cases b1 <;> simp [Bits.cur, Spec.currentBit] at hn ho0 ho1 he
+  · constructor <;> simp [Log.tearNext, Spec.nextSlot, hn, he, Bits.cur, Spec.currentBit]
+  · constructor <;> simp [Log.tearNext, Spec.nextSlot, hn, he, Bits.cur, Spec.currentBit]
+  · constructor <;> simp [Log.tearNext, Spec.nextSlot, hn, he, Bits.cur, Spec.currentBit]
+  · constructor <;> simp [Log.tearNext, Spec.nextSlot, hn, he, Bits.cur, Spec.currentBit]
+
 /-- appending an entry (a complete frame with the current bit) keeps the invariant -/
 theorem append_inv {bits : Bits} {h : H} {es : List E} {l : Log H E} (inv : Inv bits h es l) (e : E) :
     Inv bits h (es ++ [e]) { l with entries := l.entries ++ [mk bits.cur e] } := by
